@@ -192,7 +192,7 @@ func (c *choices) mix(vs ...uint64) {
 }
 
 func (c *choices) violate(rule, msg string) {
-	c.k.Violate("C07x/"+rule, msg)
+	c.k.Violate("C07/"+rule, msg)
 	c.stopped = true
 }
 
